@@ -312,6 +312,10 @@ func main() {
 		workerMain()
 		return
 	}
+	if len(os.Args) >= 6 && os.Args[1] == "concchild" {
+		concChild(os.Args[2:])
+		return
+	}
 	if len(os.Args) >= 3 && os.Args[1] == "exec" {
 		f, ok := ops[os.Args[2]]
 		if !ok {
